@@ -156,6 +156,75 @@ fn bases(letters: &[u8], max_len: usize, mixed: bool, mut f: impl FnMut(&[Line],
     });
 }
 
+
+/// one hunk on a side: base range [s, e) is replaced by `repl` (None = deleted); s == e is an insertion
+type GHunk = (usize, usize, Option<u8>);
+
+fn render_letters(letters: &[u8]) -> Vec<u8> {
+    letters.iter().flat_map(|&c| [c, b'\n']).collect()
+}
+
+fn apply_hunks(base: &[u8], hunks: &[GHunk]) -> Vec<u8> {
+    let mut out = Vec::new();
+    let mut pos = 0;
+    for &(s, e, repl) in hunks {
+        out.extend_from_slice(&base[pos..s]);
+        out.extend(repl);
+        pos = e;
+    }
+    out.extend_from_slice(&base[pos..]);
+    render_letters(&out)
+}
+
+/// every side with 1 or 2 hunks over a base of `n` lines; two hunks are separated by at least one unchanged line.
+/// A non-empty range is deleted or replaced by `letter`, an empty range gets `letter` inserted.
+fn geometry_sides(n: usize, letter: u8) -> Vec<(usize, Vec<GHunk>)> {
+    let mut singles: Vec<GHunk> = Vec::new();
+    for s in 0..=n {
+        for e in s..=n {
+            if e > s {
+                singles.push((s, e, None));
+            }
+            singles.push((s, e, Some(letter)));
+        }
+    }
+    let mut v: Vec<(usize, Vec<GHunk>)> = singles.iter().map(|h| (1, vec![*h])).collect();
+    for a in &singles {
+        for b in &singles {
+            if a.1 < b.0 {
+                v.push((2, vec![*a, *b]));
+            }
+        }
+    }
+    v
+}
+
+/// maximal runs of base positions that a side changed (base lines are distinct): (start, end) in base coordinates
+fn hunks_of(base: &[u8], side: &[u8]) -> Vec<(usize, usize)> {
+    let b: Vec<u8> = base.iter().copied().filter(|c| *c != b'\n').collect();
+    let s: Vec<u8> = side.iter().copied().filter(|c| *c != b'\n').collect();
+    // walk both: side = base with ranges replaced by at most one foreign letter
+    let mut hunks = Vec::new();
+    let (mut i, mut j) = (0, 0);
+    while i < b.len() || j < s.len() {
+        if i < b.len() && j < s.len() && b[i] == s[j] {
+            i += 1;
+            j += 1;
+            continue;
+        }
+        let start = i;
+        if j < s.len() && !b.contains(&s[j]) {
+            j += 1; // the inserted / replacing letter
+        }
+        // skip deleted base lines up to the next line that the side kept
+        while i < b.len() && (j >= s.len() || b[i] != s[j]) {
+            i += 1;
+        }
+        hunks.push((start, i));
+    }
+    hunks
+}
+
 #[derive(Clone, Copy, Debug)]
 struct Cfg {
     algo: imara_diff::Algorithm,
@@ -356,6 +425,8 @@ pub fn run(run: &'static Run) {
          for length 2 quick: <= 3, thorough: <= 4; for length 3 quick: <= 2, thorough: <= 3. \
          Every triple is merged under styles {merge,diff3,zdiff3} x marker sizes {1,7,20} (labels on for odd sizes, plus size 7 without \
          labels) and resolutions {ours,theirs,union}, diff algorithm Myers (thorough: + Histogram). \
+         sub `chains`: base = N distinct lines, N = 3..=6 (thorough 3..=7); each side = 1 or 2 hunks (two hunks separated by >= 1 unchanged line), \
+         hunk = any base range [s,e) deleted or replaced by one new line (X ours, Y theirs), or one line inserted at s; all pairs of sides, same configurations as `triples`. \
          sub `identities`: base length 0..=3 (thorough 0..=4) over {a, b, empty}, side within 2 edits (contents x|a|empty); merges (base,base,side), \
          (side,base,base), (side,base,side) under every marker size 1..=20. non-trivial = at least one side differs from the base.",
     );
@@ -439,6 +510,58 @@ pub fn run(run: &'static Run) {
             }
         },
     );
+
+    // ---- sub: hunk geometries — chains of alternately overlapping hunks (ours-theirs-ours and theirs-ours-theirs) ----
+    // Base = N distinct lines, so the diff of each side is exactly the chosen hunks.
+    let chains_ours_first = AtomicU64::new(0);
+    let chains_theirs_first = AtomicU64::new(0);
+    run.sub_with(
+        "chains",
+        Opts::default().chunk(1 << 14).watchdog(5.0),
+        |emit| {
+            for n in 3..=run.pick(6usize, 7) {
+                let base: Vec<u8> = (0..n as u8).map(|i| b'a' + i).collect();
+                let o = geometry_sides(n, b'X');
+                let t = geometry_sides(n, b'Y');
+                let b = B(render_letters(&base));
+                for (ho, ours) in &o {
+                    for (ht, theirs) in &t {
+                        let _ = (ho, ht);
+                        emit(Triple { base: b.clone(), ours: B(apply_hunks(&base, ours)), theirs: B(apply_hunks(&base, theirs)) });
+                    }
+                }
+            }
+        },
+        |c: &Triple| -> Verdict {
+            let sum = match check_triple(&c.base, &c.ours, &c.theirs, &cfgs, &merges) {
+                Ok(s) => s,
+                Err(m) => return Err(m),
+            };
+            // recover the geometry from the texts (distinct base lines): hunks = maximal runs of changed base positions
+            let (ho, ht) = (hunks_of(&c.base, &c.ours), hunks_of(&c.base, &c.theirs));
+            let chain = |a: &[(usize, usize)], b: &[(usize, usize)]| {
+                a.windows(2).any(|w| b.iter().any(|t| w[0].0 <= t.0 && t.0 < w[0].1.max(w[0].0 + 1) && t.1 > w[1].0))
+            };
+            let (co, ct) = (chain(&ho, &ht), chain(&ht, &ho));
+            if co {
+                chains_ours_first.fetch_add(1, Ordering::Relaxed);
+            }
+            if ct {
+                chains_theirs_first.fetch_add(1, Ordering::Relaxed);
+            }
+            let kind = match (co, ct) {
+                (true, true) => "chain-both-orders",
+                (true, false) => "chain-ours-theirs-ours",
+                (false, true) => "chain-theirs-ours-theirs",
+                _ => "no-chain",
+            };
+            ok(format!("geometry/{kind}/{}", if sum.keep_conflicts > 0 { "conflict" } else { "clean" }))
+        },
+    );
+    run.cov("triples_with_chain_ours_theirs_ours", chains_ours_first.load(Ordering::Relaxed));
+    run.cov("triples_with_chain_theirs_ours_theirs", chains_theirs_first.load(Ordering::Relaxed));
+    run.require("a chain ours-theirs-ours of overlapping hunks was merged", chains_ours_first.load(Ordering::Relaxed) > 0);
+    run.require("a chain theirs-ours-theirs of overlapping hunks was merged", chains_theirs_first.load(Ordering::Relaxed) > 0);
 
     // ---- sub: identities over a wider space and every marker size ----
     let all_sizes: Vec<usize> = (1..=20).collect();
